@@ -100,20 +100,20 @@ theorem center_name_roundtrip :
       centerRead (centerWrite kvnCenterPats n.toList) = n.toList ∧ (centerWrite kvnCenterPats n.toList).map low ≠ "earth".toList := by
   decide
 
-/-- Full statement (false of the current XML writer — `Witness/C13Ext.lean xml_lagrange_centre_glued`, open finding
-C13-xml-lagrange-centre-name-glued): the same over `centerNames ++ lagrangeNames` with `xmlCenterPats`.
-Proved part, **CENTER_NAME, XML**: every centre that is not a Lagrange point.  Missing: the XML writer splits a name only when it
-contains `Barycenter`, not `L<digit>` as the KVN writer does (proposed_fixes/C13-xml-lagrange-centre-name.diff). -/
-theorem center_name_roundtrip_xml_partial :
-    ∀ n ∈ centerNames,
+/-- **CENTER_NAME, XML** (full statement; until /repo 1063a10 only `…_partial`, without the Lagrange points): the XML writers split a
+centre name under the same patterns as the KVN writers (regenerated), so every centre the library can create — Lagrange points, and
+since /repo b15e5e0 those of a body whose own name has two words (`SunEarthBarycenterL2`), included — comes back as the frame name. -/
+theorem center_name_roundtrip_xml :
+    ∀ n ∈ centerNames ++ lagrangeNames,
       centerRead (centerWrite xmlCenterPats n.toList) = n.toList ∧ (centerWrite xmlCenterPats n.toList).map low ≠ "earth".toList := by
   decide
 
-/-- as soon as the XML writer tests the same patterns as the KVN writer, the full statement holds for it too -/
-theorem center_name_roundtrip_xml_of_same_pats (h : xmlCenterPats = kvnCenterPats) :
-    ∀ n ∈ centerNames ++ lagrangeNames, centerRead (centerWrite xmlCenterPats n.toList) = n.toList := by
-  rw [h]
-  exact fun n hn => (center_name_roundtrip n hn).1
+/-- read from the source: both writers test the same patterns -/
+theorem center_pats_agree : xmlCenterPats = kvnCenterPats := by decide
+
+/-- read from the live objects: no centre the library creates has a blank in its name (a blank cannot come back through
+`title().replace(" ", "")`; `lagrange()` used to put one for a body such as `Earth Barycenter`) -/
+theorem centre_names_have_no_blank : lagrangeBlankNames = [] ∧ ∀ n ∈ centerNames ++ lagrangeNames, ' ' ∉ n.toList := by decide
 
 example : centerRead (centerWrite kvnCenterPats "SolarSystemBarycenter".toList) = "SolarSystemBarycenter".toList := by decide
 
